@@ -59,7 +59,7 @@ def strip(doc):
 
 
 async def main(args):
-    out = Out("C15", "c15-e2e", "POST /api/rules with versioned 8-rule lists (valid) and invalid lists (syntax error, type error, unknown field, unknown target, mixed comparison, wrong JSON shapes at a random position), interleaved with 8 concurrent probe streams; decisions read from /api/history by source port and checked against the versions current during each probe; GET /rules compared before/after every rejected post. distinct = distinct (version window, decision) of probes that overlapped a post, and (kind of invalid list)")
+    out = Out("C15", "c15-e2e", "POST /api/rules with versioned 8-rule lists (valid) and invalid lists (syntax error, type error, unknown field, unknown target, mixed comparison, wrong JSON shapes at a random position), interleaved with 8 concurrent probe streams; decisions read from /api/history by source port and checked against the versions current during each probe; GET /rules compared before/after every rejected post; a 900-rule list posted while invalid lists arrive every 10 ms. distinct = distinct (version window, decision) of probes that overlapped a post, and (kind of invalid list)")
     rng = random.Random(args.seed)
     wd = workdir("c15")
     origin = await TcpOrigin(echo_handler, host="127.0.0.1").start()
@@ -160,6 +160,61 @@ async def main(args):
         out.sample({"posts": n_posts, "probes": len(probes), "overlapping": overlapped, "example_list": vlist(2)})
         if overlapped == 0:
             out.inconclusive += 1
+        # ---- overlapping replacement calls: a big valid list is still being compiled when invalid lists arrive. Each call is
+        # all-or-nothing on its own: the rejected ones change nothing, and the valid one, once it has answered 200, is in force
+        hosts = ", ".join('"blocked-%d.example"' % i for i in range(60))
+        for rnd in range(10 if args.thorough else 4):
+            out.case()
+            want = "a%d" % ((rnd + 3) % K)
+            big = [{"filter": "request.listener == \"http\"", "target": want}] + [{"filter": "request.target.host _: [%s] && request.target.port == %d" % (hosts, 2000 + i), "target": "pad"} for i in range(900)]
+            done = asyncio.Event()
+            overl = []
+
+            async def spoil():
+                while not done.is_set():
+                    t1 = now()
+                    try:
+                        st, _, _ = await A.api("POST", "/rules", [{"target": "z0"}, rng.choice([{"target": "no-such-upstream"}, {"filter": "request.listener == ", "target": "a0"}, {"filter": "request.target.port + 1", "target": "a0"}])], 30)
+                    except Exception:
+                        st = None
+                    overl.append((t1, now(), st))
+                    await asyncio.sleep(0.01)
+            sp = asyncio.ensure_future(spoil())
+            await asyncio.sleep(0.03)
+            t1 = now()
+            try:
+                st, _, body = await A.api("POST", "/rules", big, 60)
+            except Exception as e:
+                st, body = None, repr(e).encode()
+            t2 = now()
+            done.set()
+            await sp
+            inside = [o for o in overl if o[0] > t1 and o[1] < t2]
+            out.nontrivial(("overlapping-replacements", st, min(len(inside), 3)))
+            if any(o[2] == 200 for o in overl):
+                out.violation("invalid rule list accepted by POST /rules (posted while another replacement was in progress)", {"round": rnd})
+            if st != 200:
+                out.violation("valid rule list rejected by POST /rules", {"status": st, "body": body[:200].decode("latin1"), "rules": len(big), "overlapping_invalid_posts": len(inside)})
+                continue
+            listed = await A.api_json("/rules", timeout=30)
+            c = await open_conn("127.0.0.1", P["http"])
+            stc, _ = await http_connect(c, "127.0.0.1", origin.port)
+            src = c.local[1]
+            c.close()
+            await asyncio.sleep(0.1)
+            got = None
+            for _ in range(40):
+                hist = await A.api_json("/history", timeout=30)
+                rec = next((h for h in hist if int(h["source"].rsplit(":", 1)[1]) == src), None)
+                if rec is not None:
+                    got = rec.get("connector")
+                    break
+                await asyncio.sleep(0.1)
+            if len(listed) != len(big) or (listed and listed[0].get("target") != want) or got != want:
+                out.violation("rule list in force after a successful POST /rules is not the posted one (invalid lists were posted while it was being compiled)",
+                              {"posted_rules": len(big), "listed_rules": len(listed), "first_target_listed": listed[0].get("target") if listed else None, "first_target_posted": want,
+                               "probe_decided_by": got, "invalid_posts_during_the_call": len(inside), "call_took_s": round(t2 - t1, 2)})
+            out.count("overlapping_invalid_posts", len(inside))
         if not A.alive():
             out.violation("proxy process died", {"rc": A.exit_status(), "stderr": A.stderr_tail(600)})
     finally:
